@@ -29,8 +29,8 @@ ASSUMPTIONS = [
 SHARDS = {"quick": 8, "thorough": 16}
 FLOOR = 0.5
 REQUIRED_CLASSES = {
-    "quick": ["open-branch", "shorted-branch", "partial-short", "container", "private-element", "depth>=3", "unordered-f", "single-f", "all-open-refused"],
-    "thorough": ["open-branch", "shorted-branch", "partial-short", "container", "private-element", "depth>=3", "unordered-f", "single-f", "all-open-refused"],
+    "quick": ["open-branch", "shorted-branch", "partial-short", "container", "private-element", "depth>=3", "unordered-f", "single-f", "all-open-refused", "open-branch-non-resistor", "builder-history", "builder-mutate-returned"],
+    "thorough": ["open-branch", "shorted-branch", "partial-short", "container", "private-element", "depth>=3", "unordered-f", "single-f", "all-open-refused", "open-branch-non-resistor", "builder-history", "builder-mutate-returned"],
 }
 
 USER_SYMBOL = "Xps"
@@ -102,6 +102,7 @@ def palette(seed: int):
         E("R", R=7.5), E(USER_SYMBOL, R=20.0, fc=5.0), E("W", Y=0.01), E("K", R=-3.0, tau=0.01), E("Zarc", R=50.0, tau=1e-3, n=0.9),
         E("R", R=math.inf), E("Ky", C=2.0, tau=0.1), E("Tlm"), E("G"), E("Ws"), E("R", R=1e6), E("La", L=1e-4, n=0.9),
         E("C", C=3e-3), E("R", R=0.0), E("H"), E("Ls"), E("Wo"), E("Tlmns"),
+        E("Zarc", R=math.inf), E("Ga", R=math.inf), E("K", R=-math.inf, tau=0.5), E("Ha", R=math.inf),
     ]
     k = seed % len(items)
     return items[k:] + items[:k]
@@ -194,6 +195,8 @@ def body(ctx, case):
     has_inf = any(v is not None and math.isinf(v) for v in vals)
     if any(e[1] == "R" and (e[2].get("R") or {}).get("v") == math.inf for e in els):
         labels.add("open-branch")
+    if any(e[1] != "R" and abs((e[2].get("R") or {}).get("v") or 0.0) == math.inf for e in els):
+        labels.add("open-branch-non-resistor")
     if any(e[1] == "R" and (e[2].get("R") or {}).get("v") == 0.0 for e in els):
         labels.add("shorted-branch")
     if any(e[1] == USER_SYMBOL for e in els):
@@ -364,6 +367,75 @@ def container_body(ctx, case):
     ctx.record(case, nontrivial, labels, "no composite sub-circuit")
 
 
+@st.composite
+def builder_case(draw):
+    syms = ["R", "C", "L", "Q", "W", "Zarc", "G", "Ws", "Tlm", "La"] + ["R", "C"] * 3
+    ast = draw(G.st_tree(syms, max_leaves=draw(st.sampled_from([3, 5, 8])), min_leaves=2, state="values", canonical=True))
+    n_steps = 4 * len(G.ast_elements(ast)) + 8
+    peeks = draw(st.lists(st.sampled_from(["", "", "str-root", "to_string-root", "to_circuit-root", "str-current", "to_circuit-current"]), min_size=n_steps, max_size=n_steps))
+    iadd = draw(st.lists(st.booleans(), min_size=n_steps, max_size=n_steps))
+    return {"ast": ast, "f": draw(frequencies())[:8], "peeks": peeks, "iadd": iadd, "mutate": draw(st.booleans())}
+
+
+def builder_body(ctx, case):
+    """A building *history*: renders (str / to_string / to_circuit) interleaved with the construction steps must not
+    change what the finished builder produces, and circuits it returns are independent of each other."""
+    ast, fs = case["ast"], np.array(case["f"], dtype=float)
+    peeks = list(case["peeks"])
+    step = [0]
+    n_peeks = [0]
+
+    def peek(root, current):
+        i = step[0]
+        step[0] += 1
+        kind = peeks[i] if i < len(peeks) else ""
+        if not kind:
+            return
+        target = root if kind.endswith("root") else current
+        n_peeks[0] += 1
+        try:
+            if kind.startswith("str"):
+                str(target)
+            elif kind.startswith("to_string"):
+                target.to_string()
+            else:
+                target.to_circuit()
+        except Exception:  # noqa: BLE001  a half-built circuit (e.g. a parallel connection with one path) may be refused
+            pass
+
+    labels = {"builder-history"}
+    try:
+        b = G.build_builder(ast, peek=peek, use_iadd=lambda i: case["iadd"][i] if i < len(case["iadd"]) else False)
+        built = b.to_circuit()
+    except Exception as e:  # noqa: BLE001
+        ctx.crash("builder-history", case, e)
+        ctx.record(case, False, labels, "builder raised")
+        return
+    rounded = G.build_objects(G.round_ast(ast, 12))
+    w, rw = lib_eval(lambda: rounded.get_impedances(fs))
+    v, r = lib_eval(lambda: built.get_impedances(fs))
+    if w is None:
+        ctx.check(v is None, "builder-history", case, f"object circuit refused ({rw}) but the builder circuit returned values")
+        ctx.record(case, False, labels, "reference circuit refused")
+        return
+    bad = [0] if v is None else [i for i in range(len(fs)) if not _close(v[i], w[i], 1e-9)]
+    ctx.check(not bad, "builder-history", case, f"builder with interleaved renders gives {None if v is None else [complex(v[i]) for i in bad[:3]]} ({r}); objects give {[complex(w[i]) for i in bad[:3]]}; text {str(b)!r}")
+    ctx.check(len(G.all_elements(built)) == len(G.all_elements(rounded)), "builder-history", case, f"builder circuit has {len(G.all_elements(built))} elements, the equivalent object circuit {len(G.all_elements(rounded))}")
+    if case["mutate"]:
+        labels.add("builder-mutate-returned")
+        first = built.get_elements()[0]
+        key = sorted(first.get_values())[0]
+        try:
+            first.set_values(key, first.get_value(key) * 0.5 if first.get_value(key) != 0 else 1.0)
+        except Exception:  # noqa: BLE001
+            pass
+        again = b.to_circuit()
+        v2, r2 = lib_eval(lambda: again.get_impedances(fs))
+        bad = [0] if v2 is None else [i for i in range(len(fs)) if not _close(v2[i], w[i], 1e-9)]
+        ctx.check(again is not built and not bad, "builder-returns-independent-circuits", case, "a circuit returned earlier was modified; the builder's next to_circuit() reflects that modification")
+    ctx.record(case, n_peeks[0] > 0, labels, "no interleaved render")
+
+
 def ctor_cases(ctx):
     yield {"form": "list"}
     yield {"form": "element"}
@@ -401,6 +473,7 @@ def parts(ctx):
     return [
         Part("constructor-forms", ctor_body, items=ctor_cases, exhaustive=True, shard=False),
         Part("shapes-exhaustive", body, items=shape_cases, exhaustive=True),
-        Part("random-circuits", body, strategy=random_case(), n={"quick": 800, "thorough": 30000}),
-        Part("container-collapse", container_body, strategy=container_case(), n={"quick": 300, "thorough": 8000}),
+        Part("random-circuits", body, strategy=random_case(), n={"quick": 3200, "thorough": 30000}),
+        Part("container-collapse", container_body, strategy=container_case(), n={"quick": 800, "thorough": 8000}),
+        Part("builder-histories", builder_body, strategy=builder_case(), n={"quick": 1200, "thorough": 8000}),
     ]
